@@ -240,7 +240,7 @@ int FEASolver<PointPropT,BoundaryPropT,BlockPropT,CircuitPropT,BlockLabelT,MeshE
             j=numcon[i];
             n0=i;
         }
-        if(j==2) i=n_lines;	// break out if j==2,
+        if(j==2) break;	// break out if j==2,
         // because this is the best we can do
     }
 
